@@ -1208,3 +1208,50 @@ class handler_amend_step:
     finish = _handler_amend_finish
     modifies = []
     loops = {0: LoopSpec(havoc=("unavailable",))}
+
+
+# ---------------------------------------------------------------- the re-hash after the command covers every input
+
+
+@structural("C03/scan/full_rehash_covers_every_input", props=["C03", "C05"],
+            note="Executor._compute_full_step_hash (a stand-in in the contract of execute_job): the inputs handed to the "
+                 "re-hash after the command are the recorded hashes of *every* input record of the step that is BUILT or "
+                 "CONFIRMED -- declared and amended alike; only the state may exclude one -- and the second value returned "
+                 "is that re-hash's set of changed inputs (what execute_job calls unexpected input changes)")
+def full_rehash_covers_every_input():
+    import ast
+
+    _, fn = extract.find_def("stepup/core/executor.py", "Executor._compute_full_step_hash")
+    out = []
+    parts = [c for c in ast.walk(fn) if isinstance(c, ast.Call) and ast.unparse(c.func).endswith("partial")
+             and c.args and ast.unparse(c.args[0]) == "compute_both_hashes"]
+    ok_call = len(parts) == 1 and len(parts[0].args) == 3 and isinstance(parts[0].args[1], ast.Name)
+    out.append(("scan/full_rehash_covers_every_input/one_rehash_of_inputs_and_outputs", ok_call,
+                f"{[ast.unparse(p) for p in parts]}"))
+    if ok_call:
+        name = parts[0].args[1].id
+        assigns = [n for n in ast.walk(fn) if isinstance(n, (ast.Assign, ast.AugAssign, ast.AnnAssign))
+                   and any(isinstance(t, ast.Name) and t.id == name for t in (n.targets if isinstance(n, ast.Assign) else [n.target]))]
+        stores = [n for n in ast.walk(fn) if isinstance(n, ast.Subscript) and isinstance(n.ctx, (ast.Store, ast.Del))
+                  and ast.unparse(n.value) == name]
+        good = False
+        if len(assigns) == 1 and isinstance(assigns[0], ast.Assign) and isinstance(assigns[0].value, ast.DictComp) and not stores:
+            dc = assigns[0].value
+            if len(dc.generators) == 1 and isinstance(dc.generators[0].target, ast.Name):
+                g, v = dc.generators[0], dc.generators[0].target.id
+                cond_ok = len(g.ifs) == 1 and isinstance(g.ifs[0], ast.Compare) and len(g.ifs[0].ops) == 1 \
+                    and isinstance(g.ifs[0].ops[0], ast.In) and ast.unparse(g.ifs[0].left) == f"{v}.state" \
+                    and isinstance(g.ifs[0].comparators[0], (ast.Tuple, ast.Set, ast.List)) \
+                    and sorted(ast.unparse(x) for x in g.ifs[0].comparators[0].elts) == ["FileState.BUILT", "FileState.CONFIRMED"]
+                good = (ast.unparse(dc.key) == f"{v}.path" and ast.unparse(dc.value) == f"{v}.hash"
+                        and ast.unparse(g.iter) == "run.step.inp_paths()" and cond_ok and not g.is_async)
+        out.append(("scan/full_rehash_covers_every_input/every_built_or_confirmed_input_is_rehashed", good,
+                    f"{name} = {ast.unparse(assigns[0].value)[:160] if assigns else None}; item stores: {len(stores)}"))
+    last = fn.body[-1]
+    ret = ast.unparse(last.value) if isinstance(last, ast.Return) and last.value is not None else None
+    res = [n for n in ast.walk(fn) if isinstance(n, ast.Assign) and isinstance(n.targets[0], ast.Tuple)
+           and ast.unparse(n.targets[0]) in ("(inp_result, out_result)", "inp_result, out_result")]
+    out.append(("scan/full_rehash_covers_every_input/changed_inputs_are_returned_as_found",
+                ret == "(step_hash, inp_result.new_hashes, out_result.new_hashes)" and len(res) == 1
+                and ast.unparse(res[0].value) == "result", f"return {ret}"))
+    return out
